@@ -370,6 +370,38 @@ def deduction_obligations(ck, rule_prefix=''):
     ck.ob('MPT-count', mod.loc(hd), len(incs) == 1 and flow.valid(incs[0][1]) and try_fold(incs[0][0].value) == 1
           and 'levelno' in u(flow.subst(incs[0][0].target, incs[0][2])),
           'every handled record increments counts[level][type] by one, unconditionally', key='MPT-count|handle')
+    # .. filed under exactly the record's own level and its own type (an empty type is a type, an in-between level is a level: what is at WARNING is deductible,
+    # what is above is not) -- the handler interpreted on records
+    import collections
+
+    class _Rec(_interp.Model):
+        def __init__(self, levelno, **kw):
+            self.levelno = levelno
+            self.__dict__.update(kw)
+
+    class _Self(_interp.Model):
+        def __init__(self):
+            self.type_attr = 'type'
+            self.default_type = 'general'
+            self.counts = collections.defaultdict(lambda: collections.defaultdict(int))
+    bad_ = None
+    recs = [(30, {'type': 'unmapped-atom'}, 'unmapped-atom'), (30, {'type': ''}, ''), (30, {}, 'general'), (35, {'type': 'general'}, 'general'), (39, {'type': 'x'}, 'x'),
+            (40, {'type': 'general'}, 'general'), (5, {'type': 'step'}, 'step'), (20, {'type': 'general'}, 'general'), (30, {'type': 'general'}, 'general'), (31, {}, 'general')]
+    try:
+        me = _Self()
+        params_ = [a.arg for a in hd.args.args]
+        want = collections.Counter()
+        for lvl_, kw_, typ_ in recs:
+            _interp.call(hd.body, {params_[0]: me, params_[1]: _Rec(lvl_, **kw_)})
+            want[(lvl_, typ_)] += 1
+        got = collections.Counter({(l_, t_): n_ for l_, row in me.counts.items() for t_, n_ in row.items() if n_})
+        if got != want:
+            diff = sorted(set(got.items()) ^ set(want.items()), key=repr)
+            bad_ = 'after {} records the table differs from one count per (level, type): {}'.format(len(recs), diff[:4])
+    except (_interp.Unsupported, KeyError, TypeError, AttributeError) as err:
+        bad_ = 'could not be interpreted: {}'.format(err)
+    ck.ob('MPT-count', mod.loc(hd), bad_ is None, 'a handled record is filed under its own level and its own type, one count each ({} records interpreted, among them an empty type, '
+          'a record without type and levels between WARNING and ERROR){}'.format(len(recs), '' if bad_ is None else ' -- ' + bad_), key='MPT-count|handle|table')
     return fn
 
 
